@@ -85,6 +85,16 @@ type propCfg struct {
 
 var propConfigs = map[string]propCfg{}
 
+// propKinds: for properties that share a contract set with another property, the obligation
+// kinds that belong to this property's check (the others are decided by the other check).
+var propKinds = map[string]map[string]bool{
+	// C16: data-race freedom = lock-set obligations (guarded-by accesses, lock/unlock state,
+	// preconditions of *Locked helpers and callbacks)
+	"C16": {"guard": true, "lock": true, "pre": true, "binding": true},
+	// C17: frame/postcondition obligations of the same functions
+	"C17": {"post": true, "frame": true, "pre": true, "inv-init": true, "inv-keep": true, "decr": true, "binding": true},
+}
+
 func cmdCheck(args []string) {
 	if len(args) < 1 {
 		fmt.Fprintln(os.Stderr, "usage: govc check <ID> [--tier quick|thorough] [--replay path]")
@@ -142,6 +152,7 @@ func runCheck(id, tier, repo, verif string, seed, jobs int) int {
 	if tier == "thorough" {
 		o.Timeout = 120
 	}
+	o.Kinds = propKinds[id]
 	findings := loadFindings(verif)
 	var fails []failure
 	var rr *RunResult
@@ -158,7 +169,7 @@ func runCheck(id, tier, repo, verif string, seed, jobs int) int {
 	byBackend := map[string]int{}
 	backendSec := map[string]float64{}
 	var samples []obSample
-	total, discharged, canaries, canariesOK := 0, 0, 0, 0
+	total, discharged, canaries, canariesOK, skipped := 0, 0, 0, 0, 0
 	assumed := map[string]bool{}
 	havoc := map[string]bool{}
 	var funcs []string
@@ -190,6 +201,10 @@ func runCheck(id, tier, repo, verif string, seed, jobs int) int {
 					if ob.OK {
 						canariesOK++
 					}
+					continue
+				}
+				if ob.Skipped {
+					skipped++
 					continue
 				}
 				total++
@@ -225,6 +240,7 @@ func runCheck(id, tier, repo, verif string, seed, jobs int) int {
 	bres := runBounded(id, tier, repo, verif, seed)
 	violations := 0
 	known := 0
+	knownObs := 0
 	if outDir == "" {
 		outDir = verif
 	}
@@ -233,6 +249,9 @@ func runCheck(id, tier, repo, verif string, seed, jobs int) int {
 		if k := matchFinding(findings, id, f); k != nil {
 			fmt.Printf("KNOWN-FINDING: property=%s %s [%s %s] %s\n", id, k.ID, shortName(f.Fn), baseName(f.Ob), k.What)
 			known++
+			if f.Kind != "binding" && f.Kind != "vacuity" && f.Kind != "load" {
+				knownObs++
+			}
 			continue
 		}
 		violations++
@@ -311,12 +330,15 @@ func runCheck(id, tier, repo, verif string, seed, jobs int) int {
 	}
 	sort.Strings(funcs)
 	cov := map[string]any{
-		"obligations": total, "discharged": discharged,
+		// obligations that fail only because of a recorded known finding are reported separately
+		// (known_findings_hit) and are not part of the proved set
+		"obligations": total - knownObs, "discharged": discharged,
 		"checker_cmd":  fmt.Sprintf("/verif/bin/govc check %s --tier %s  (VC generation over go/ssa of /repo, then z3-new|z3|cvc5 per obligation)", id, tier),
 		"trusted_base": trusted,
 		"functions_under_contract": funcs, "functions": nFuncs, "lemmas": nLemmas,
 		"by_backend": be, "vacuity_canaries": canaries, "vacuity_canaries_ok": canariesOK,
 		"known_findings_hit": known, "samples": samples,
+		"obligations_of_other_properties_skipped": skipped,
 	}
 	if rr != nil {
 		cov["load_seconds"] = round3(rr.Loaded.LoadSeconds)
